@@ -62,7 +62,11 @@ COMPONENTS = {
                  "wall clock: every Tell(GossipMessage) lands in a simulated network, every Ask (JoinRequest, GetViewRequest) is a synchronous "
                  "call into the target NodeActor or a timeout, every Scheduler registration is recorded and fired only by the schedule, "
                  "time.Now() inside internal/cluster is a virtual clock (overlay copies generated at check time by bin/gen_gossip_clock) - "
-                 "in lock-step with Cluster/Gossip.v; property-level monitors on the real code"),
+                 "in lock-step with Cluster/Gossip.v; property-level monitors on the real code. The per-peer last-vector table of the NodeActor is "
+                 "located by reflection (by name, then by type: a map from address strings to VersionVector, possibly inside a struct the actor "
+                 "holds); when it cannot be found that one observation is reported UNAVAILABLE and projected out on both sides, everything "
+                 "else stays compared. A scripted step that the implementation's state does not allow (witness replay) is a named monitor "
+                 "hit (witness-step-missing), a panic inside a scenario is harness:panic: neither aborts the run"),
         "timeout": {"quick": 600, "thorough": 3600},
     },
 }
@@ -80,11 +84,19 @@ PROPERTIES = {
                  "scenarios: 2-7 nodes, 1-3 seeds that are not the smallest addresses, permuted seed lists, a self-seeded island, random start "
                  "order, 0/10/30% loss of packets and Asks, pairwise partitions toggled during the fault phase, crashes and restarts of non-seeds, "
                  "leaves; then a fault-free phase of fair rounds with per-node timer phases and random delivery orders; classes: join (failure "
-                 "detection off, no stop), restart (off, crash + restart under the same id), leave (off), fd (timeout 300 with "
+                 "detection off, no stop), islands (off, no stop: 2-3 self-seeded islands with 0-2 members each, introduced to each other only by "
+                 "bridge nodes that list the seeds of two islands - they meet only because a node keeps gossiping to a configured seed that is "
+                 "no member of its view; instance 0 is the canonical A=[A] B=[B] C=[A,B] D=[B] without any fault), seedsplit (off, no stop: 2-3 "
+                 "seeds that all list all seeds, each with 0-2 joiners, all sides partitioned from each other while they start, everything sent "
+                 "across the partition lost, healed when the faults stop); join / islands / seedsplit are CLEAN histories in the sense of "
+                 "Cluster/GossipClean.v, on which convergence is a theorem of the model, so any end-state discrepancy there additionally raises "
+                 "clean-history-not-converged and can never match a known finding; restart (off, crash + restart under the same id), leave (off), fd (timeout 300 with "
                  "SuspectConfirmDuration 0 / 150 / 100000; every fifth scenario with wall-clock sized numbers: 1.7e18 ns, seconds); 32 short "
-                 "scenarios small enough for the in-Coq vm_compute cross-check; plus the five kernel-checked witness executions of "
-                 "Properties/C18.v, whose executed schedule must equal the model's witness schedule step by step. non-trivial = more than 10 "
-                 "steps; distinct = distinct schedules"),
+                 "scenarios small enough for the in-Coq vm_compute cross-check; plus the kernel-checked executions of Properties/C18.v - the "
+                 "refutation witnesses (a) (b) (c) (d) (e) (c2) (g), the islands instance (i) of the hypotheses of the convergence theorem (the "
+                 "implementation must then show the theorem's conclusion: monitor proved-instance-fails otherwise) and the unconnected-seeds "
+                 "configuration (h, lock-step only) - whose executed schedule must equal the model's schedule step by step. non-trivial = more "
+                 "than 10 steps; distinct = distinct schedules"),
         "modelled_not_verified": [
             "each handler of the NodeActor runs to completion before the next message (one mailbox goroutine, C01); a synchronous Ask into the seed is one atomic step of the schedule (the real asker blocks on the future while the seed handles the request)",
             "the remoting transport is the identity on message values and loses nothing unless the schedule drops the packet or fails the Ask (wire round-trip of the cluster messages is C12; delivery over a healthy link is C11); packets may be reordered arbitrarily (a superset of per-connection FIFO)",
@@ -96,13 +108,27 @@ PROPERTIES = {
             "ForceMemberDown of a node's own id at that node followed by a failure-detection tick that removes ALL remaining members is outside the model: the view becomes empty, recomputeCounts then skips the version-vector prune, and which entries survive depends on the Go map iteration order in RunDetection (observed on the implementation; the harness generates a self force-down only with a timeout that cannot expire)",
             "Context.Leave (the LeaveRequest comes from a local watcher actor and the process stops afterwards) is one step; LeaveBroadcastDelay / LeaveBroadcastRounds are not read by the current node_actor.go",
             "metrics are disabled (MetricsEnabled() = false); log output is discarded",
+            "the convergence theorems (section 5 of Properties/C18.v) hold for CLEAN histories only: FailureDetectionTimeout <= 0 everywhere, every NodeID used by one process, no crash / leave / force-down, every accepted JoinRequest accepted by a node that has itself joined; at most 65535 nodes (beyond it the version vector is truncated: C17's finding) and fewer than 2^61 steps (no counter at 2^63-1, where Increment fails and the error is ignored); a lost join Ask is a lost REQUEST (a JoinResponse lost after the seed accepted the join is outside the model)",
+            "undecided class: a node whose own join is still pending (it holds a view learned by gossip) ACCEPTS a JoinRequest - it then increments a version-vector entry for its own id, which is no member of its view; recomputeCounts prunes the entry at the next change and the counter value is used a second time. No refutation was found and the invariant of the convergence proof (vector order = membership order) does not hold on such histories",
         ],
     },
 }
 
 META = {
     "C18": {
-        "text": ("PARTIAL. 20 kernel-checked theorems about a Gallina model of the NodeActor (join with generation bump, join request, gossip "
+        "text": ("PARTIAL, DECIDED BY HISTORY CLASS. 31 kernel-checked theorems. PROVED for every clean history (failure detection off, "
+                 "every NodeID used once, no crash / leave / force-down, joins accepted by joined nodes; any number of nodes up to the 65535-entry "
+                 "cap, any join order, seed lists, loss, delivery order, retries): in every reachable world the order of the version vectors is "
+                 "the order of the memberships - for node views and GossipMessages in flight alike - so the suppression of shouldSendGossipTo "
+                 "is sound; ONE fair round after everybody has joined makes all views equal provided the seed lists connect the nodes (self-seeded "
+                 "islands meet because target selection keeps gossiping to configured seeds that are no members of the view), exactly one node "
+                 "has IAmLeader, and in all later fair rounds no membership / view / leader change is announced and no membership or vector "
+                 "changes (C18_clean_history_converges; in the shape of the unconditional statement: it holds with L = 2 rounds, "
+                 "C18_unconditional_on_clean_histories). REFUTED outside, one witness per excluded class: failure detection on -> (a) (c) (f); "
+                 "crash + restart -> (c2) (e) (e2); leave -> (d); removal -> (b); a crash that nothing detects -> (g); seed lists that do not "
+                 "connect -> (h, a configuration, not a defect). UNDECIDED: histories in which a node whose own join is pending accepts a "
+                 "JoinRequest. Also: exact thresholds of the failure detector; the default quorum rule holds iff at least one member is Up. "
+                 "THE EARLIER SUMMARY: 20 kernel-checked theorems about a Gallina model of the NodeActor (join with generation bump, join request, gossip "
                  "merge with LastSeen refresh, gossip round with shouldSendGossipTo, failure detection with suspect/confirm/remove, quorum "
                  "recovery, leave, force-down, leader computation, event publisher) and of a world of such nodes with a lossy reordering network, "
                  "crashes, restarts and explicit timers. TRUE for all inputs: equal sets of Up members give the same leader (the least address) "
@@ -124,6 +150,6 @@ META = {
                  "harness (its ActorContext, simulated network and clock, the lexical time.Now rewrite of bin/gen_gossip_clock); the fairness "
                  "of the real scheduler. Liveness is proved only in the conditional form above. The monitors fire on the unchanged tree for the "
                  "recorded defects; every hit carries a cause established from the run's history, and a hit without such a cause is a VIOLATION."),
-        "technique": "Coq proof (invariants over an annotated world, finite-map extensionality, reflection of boolean checkers) over a hand-written model + lock-step correspondence check against the real NodeActor under a simulated runtime + implementation-side monitors with cause attribution",
+        "technique": "Coq proof (ghost log of local membership changes + invariant 'membership = what the version vector selects from the log', coverage invariant of a fair round, graph argument over the seed lists; invariants over an annotated world, finite-map extensionality, reflection of boolean checkers) over a hand-written model + lock-step correspondence check against the real NodeActor under a simulated runtime + implementation-side monitors with cause attribution",
     },
 }
